@@ -268,7 +268,7 @@ func (r *runner) refreshOracle(step int, pre *hist.Facts, retained, nw *hist.Mat
 	// 1. group key unchanged
 	for _, id := range nf.IDs {
 		if !nf.Pub[id].Equal(r.ln.pub) {
-			r.violate("key-changed", fmt.Sprintf("after the refresh %s reports group key %x, the key line's key is %x", id, nf.Pub[id].Compressed(), r.ln.pub.Compressed()))
+			r.violate("key-changed", fmt.Sprintf("after the refresh %s reports group key %s, the key line's key is %s", id, hist.Hex(nf.Pub[id]), hist.Hex(r.ln.pub)))
 		}
 	}
 	// 2. key-generation consistency conditions on the new epoch
